@@ -742,20 +742,33 @@ class TicketStore:
     Pass the same store to two successive :class:`Pair` s to resume / do 0-RTT:
     the first run fills ``client_tickets``; give
     ``client_config={"session_ticket": store.client_tickets[-1]}`` to the second.
+    The second pair's clock automatically starts after the first one's tickets
+    became valid (``resume_after``).
     """
 
     def __init__(self) -> None:
         self.tickets: dict[bytes, Any] = {}
         self.client_tickets: list[Any] = []
+        #: virtual time after which every stored ticket is valid; a Pair given
+        #: this store starts its clock no earlier (tickets carry a
+        #: not-valid-before stamp taken from the issuing pair's virtual clock)
+        self.resume_after = 0.0
+        self._clock: Optional[Clock] = None
+
+    def _stamp(self) -> None:
+        if self._clock is not None:
+            self.resume_after = max(self.resume_after, self._clock.now + 1.0)
 
     def add(self, ticket: Any) -> None:
         self.tickets[ticket.ticket] = ticket
+        self._stamp()
 
     def pop(self, label: bytes) -> Any:
         return self.tickets.pop(label, None)
 
     def client_add(self, ticket: Any) -> None:
         self.client_tickets.append(ticket)
+        self._stamp()
 
 
 @dataclass
@@ -849,7 +862,11 @@ class Pair:
         spin_quantum: Optional[float] = 0.001,
     ) -> None:
         self.seed = seed
+        if ticket_store is not None:
+            clock_start = max(clock_start, ticket_store.resume_after)
         self.clock = Clock(clock_start)
+        if ticket_store is not None:
+            ticket_store._clock = self.clock
         self.rng = random.Random("pair-%s" % (seed,))
         self.net_rng = random.Random("net-%s" % (seed,))
         self.timer_rng = random.Random("timer-%s" % (seed,))
